@@ -340,6 +340,9 @@ class StructProp(Prop):
     def phs(self, g, r):
         x = r.random()
         if x < 0.03: return r.choice(self.UNSER), None      # repeats a label: serialising it fails, the structure functions refuse (panic)
+        if x < 0.09 and x >= 0.06:
+            # a header value holding both an IV and a Partial IV (only the public fields can build it; it encodes, entry by entry)
+            return '(ph - (hdr %s (crit) - b b%s b%s (cs) (rest)))' % (r.choice(['-', 'A1', 'A-7']), r.choice(['01', '0102']), r.choice(['0a0b', '0c0d', '0e'])), None
         if x < 0.06:
             # many sibling counter signatures in a built header (informed-adversary round: `.take(16)` when emitting them)
             n = r.choice([2, 15, 16, 17, 18, 24, 25, 40])
